@@ -4,7 +4,7 @@ from __future__ import annotations
 
 import itertools
 import math
-from concurrent.futures import Executor, Future
+from concurrent.futures import Executor, Future, ProcessPoolExecutor, ThreadPoolExecutor
 
 PROP = "C16"
 PROP_FILE = "PwVerif/Props/C16.lean"
@@ -24,6 +24,11 @@ THEOREMS = [
     "C16_rebuild",
     "C16_rerun",
     "C16_child_count",
+    "C16_row_count",
+    "C16_mk",
+    "C16_statement_repaired",
+    "C16_statement_partial",
+    "C16_pinned_witness",
 ]
 RULE = (
     "real for-nodes made by for_node / Cls.for_node / node.iter / node.zip over three importable term-building "
@@ -165,7 +170,15 @@ def cache_policy():
             wf.run()
         except Exception as e:  # noqa: BLE001
             abort = type(e).__name__ != "FailedChildError"
-        _POLICY = {"gate": bool(gate), "clear": bool(clear), "abort": bool(abort),
+        # does class creation refuse a column map ONTO a looped label (C16's own finding / its repair)?
+        from pyiron_workflow.nodes.for_loop import for_node
+
+        try:
+            for_node(nodes_c16.B4, iter_on=("a",), output_column_map={"o": "a"}, a=["x"], b="B", c="C")
+            checkcols = False
+        except ValueError:
+            checkcols = True
+        _POLICY = {"gate": bool(gate), "clear": bool(clear), "abort": bool(abort), "checkcols": checkcols,
                    "probe_ok": gate is not None and clear is not None and abort is not None}
     return _POLICY
 
@@ -396,6 +409,56 @@ def gen_cases(rng, tier):
                 case["init"][x] = x.upper()
         yield case
 
+    # 5b. body nodes on REAL executors (threads, processes): the completion order is whatever it is
+    for i in range(24 if quick else 160):
+        body = rng.choice(["B4", "B3"])
+        inputs = BODIES[body]["inputs"]
+        roles = rng.choice(list(_splits(inputs)))
+        iter_on = [k for k, r in zip(inputs, roles) if r == "i"]
+        zip_on = [k for k, r in zip(inputs, roles) if r == "z"]
+        lens_seq = [{k: rng.randint(1, 3) for k in iter_on + zip_on} for _ in range(rng.choice([1, 2, 3]))]
+        case = _mk_case(rng, body, roles, rng.random() < 0.5, None, True, "for_node", False, lens_seq)
+        case["executor"] = "process" if i % 4 == 3 else "thread"
+        yield case
+
+    # 5c. the loop node as a child of a workflow, fed through data connections, run by the workflow
+    for _ in range(60 if quick else 500):
+        body = rng.choice(["B4", "B3"])
+        inputs = BODIES[body]["inputs"]
+        roles = rng.choice(list(_splits(inputs)))
+        iter_on = [k for k, r in zip(inputs, roles) if r == "i"]
+        zip_on = [k for k, r in zip(inputs, roles) if r == "z"]
+        cms = [c for c in _colmaps(body, iter_on, zip_on) if _columns_distinct(body, iter_on, zip_on, c)]
+        lens_seq = [{k: rng.randint(1, 3) for k in iter_on + zip_on} for _ in range(rng.choice([1, 2, 3]))]
+        yield _mk_case(rng, body, roles, rng.random() < 0.5, rng.choice(cms), rng.random() < 0.8, "wf",
+                       rng.random() < 0.3, lens_seq)
+
+    # 5d. column maps that are NOT renamings (two columns would share a name), maps with unknown keys,
+    #     unmapped input/output clashes: what does class creation do, and what comes out if it accepts
+    for _ in range(60 if quick else 400):
+        body = rng.choice(["B4", "B3", "BC"])
+        inputs = BODIES[body]["inputs"]
+        outs = BODIES[body]["outputs"]
+        roles = rng.choice(list(_splits(inputs)))
+        iter_on = [k for k, r in zip(inputs, roles) if r == "i"]
+        zip_on = [k for k, r in zip(inputs, roles) if r == "z"]
+        looped = iter_on + zip_on
+        r = rng.random()
+        if r < 0.5:
+            colmap = {rng.choice(outs): rng.choice(looped)}  # onto a looped label
+            if len(outs) > 1 and rng.random() < 0.3:
+                other = [o for o in outs if o not in colmap][0]
+                colmap[other] = rng.choice(looped + ["w"])
+        elif r < 0.75 and len(outs) > 1:
+            colmap = rng.choice([{outs[0]: outs[1]}, {outs[0]: "x", outs[1]: "x"}, {outs[1]: outs[0]}])
+        elif r < 0.9:
+            colmap = rng.choice([{"zz": "y"}, {outs[0]: "y", "nope": "n"}])  # key that is no output
+        else:
+            colmap = None if body == "BC" else {outs[0]: outs[0]}  # BC: unmapped clash when `a` is looped
+        lens_seq = [{k: rng.randint(1, 3) for k in looped} for _ in range(rng.choice([1, 2]))]
+        yield _mk_case(rng, body, roles, rng.random() < 0.5, colmap, rng.random() < 0.75, "for_node",
+                       False, lens_seq)
+
     # 6. dictionary_to_index_maps directly
     keys = ["a", "b", "c", "x"]
     for _ in range(400 if quick else 6000):
@@ -452,6 +515,37 @@ def corpus():
     yield {"kind": "for", "body": "B3", "iter": ["a"], "zip": [], "df": True, "colmap": None, "use_cache": True,
            "entry": "for_node", "executor": False, "init": {"a": ["a0", "a1"], "b": "B"},
            "runs": [{"set": {}, "how": "call"}, {"set": {"c": "C"}, "how": "call"}]}
+    # the column map sends the output ONTO the iterated label: the input column is lost (table) / label clash (lists)
+    yield {"kind": "for", "body": "B4", "iter": ["a"], "zip": [], "df": True, "colmap": {"o": "a"}, "use_cache": True,
+           "entry": "for_node", "executor": False, "init": {"a": ["a0", "a1"], "b": "B", "c": "C"},
+           "runs": [{"set": {}, "how": "call"}]}
+    yield {"kind": "for", "body": "B4", "iter": ["a"], "zip": ["b"], "df": False, "colmap": {"o": "a"},
+           "use_cache": True, "entry": "for_node", "executor": False,
+           "init": {"a": ["a0", "a1"], "b": ["b0"], "c": "C"},
+           "runs": [{"set": {}, "how": "call"}, {"set": {"a": ["a0"]}, "how": "call"}]}
+    yield {"kind": "for", "body": "B3", "iter": ["a"], "zip": [], "df": True, "colmap": {"p": "q"}, "use_cache": True,
+           "entry": "for_node", "executor": False, "init": {"a": ["a0", "a1"], "b": "B", "c": "C"},
+           "runs": [{"set": {}, "how": "call"}]}
+    # refused when the class is made: unmapped input/output clash, map key that is no output
+    yield {"kind": "for", "body": "BC", "iter": ["a"], "zip": [], "df": True, "colmap": None, "use_cache": True,
+           "entry": "for_node", "executor": False, "init": {"a": ["a0"], "b": "B", "c": "C"},
+           "runs": [{"set": {}, "how": "call"}]}
+    yield {"kind": "for", "body": "B4", "iter": ["a"], "zip": [], "df": True, "colmap": {"zz": "y"}, "use_cache": True,
+           "entry": "for_node", "executor": False, "init": {"a": ["a0"], "b": "B", "c": "C"},
+           "runs": [{"set": {}, "how": "call"}]}
+    # real thread pool / process pool under the body nodes, re-run with other lengths
+    yield {"kind": "for", "body": "B4", "iter": ["a"], "zip": ["b", "c"], "df": True, "colmap": None, "use_cache": True,
+           "entry": "for_node", "executor": "thread",
+           "init": {"a": ["a0", "a1"], "b": ["b0", "b1", "b2"], "c": ["c0", "c1"]},
+           "runs": [{"set": {}, "how": "call"}, {"set": {"a": ["x"], "c": ["c0"]}, "how": "call"}]}
+    yield {"kind": "for", "body": "B3", "iter": ["a", "b"], "zip": [], "df": False, "colmap": {"p": "P"},
+           "use_cache": True, "entry": "for_node", "executor": "process",
+           "init": {"a": ["a0", "a1"], "b": ["b0", "b1"], "c": "C"},
+           "runs": [{"set": {}, "how": "call"}, {"set": {"b": ["x"]}, "how": "setrun"}]}
+    # the loop node inside a workflow, inputs through connections, shrinking re-run
+    yield {"kind": "for", "body": "B4", "iter": ["a"], "zip": ["b"], "df": True, "colmap": None, "use_cache": True,
+           "entry": "wf", "executor": False, "init": {"a": ["a0", "a1"], "b": ["b0", "b1", "b2"], "c": "C"},
+           "runs": [{"set": {}, "how": "call"}, {"set": {"a": ["z"]}, "how": "call"}]}
     yield {"kind": "maps", "data": {"a": 2, "b": 0, "c": 3}, "nested": ["a", "b"], "zipped": ["c"]}
     yield {"kind": "maps", "data": {"a": 2, "c": 3}, "nested": ["a", "a"], "zipped": ["c", "a"]}
     yield {"kind": "maps", "data": {"a": 2}, "nested": None, "zipped": None}
@@ -469,6 +563,8 @@ def _exc_kind(e):
         if "At least one of" in s:
             return "Value:noKeys"
         return "Value:other"
+    if name == "AttributeError" and "is already the label for a child" in str(e):
+        return "LabelClash"
     return {"KeyError": "Key", "TypeError": "Type", "ReadinessError": "Readiness",
             "FailedChildError": "FailedChild", "Livelock": "Livelock"}.get(name, f"Other({name})")
 
@@ -532,13 +628,22 @@ def _run_for(case):
     nodes_c16.reset()
     spec = BODIES[case["body"]]
     Body = getattr(nodes_c16, case["body"])
-    ctl = CtlExecutor() if case["executor"] else None
+    real = case["executor"] if case["executor"] in ("thread", "process") else None
+    ctl = CtlExecutor() if (case["executor"] and not real) else None
+    pool = None
+    if real == "thread":
+        pool = ThreadPoolExecutor(max_workers=3)
+    elif real == "process":
+        pool = ProcessPoolExecutor(max_workers=2)
+    body_exec = pool if real else ctl
     idle = _Idle(ctl)
     old_sleep = composite.sleep
-    composite.sleep = idle
+    if not real:
+        composite.sleep = idle  # (a real pool completes by itself: the library's own sleep stays)
     obs, runs_out = [], []
     stats = {"form:" + ("df" if case["df"] else "lists"): 1, "entry:" + case["entry"]: 1,
-             "body:" + case["body"]: 1, "executor:" + str(bool(ctl)): 1}
+             "body:" + case["body"]: 1, "executor:" + str(case["executor"]): 1}
+    wf, srcs = None, {}
     try:
         shortcut = case["entry"] in ("iter", "zip")
         f = None
@@ -546,19 +651,40 @@ def _run_for(case):
             kw = dict(iter_on=tuple(case["iter"]), zip_on=tuple(case["zip"]), output_as_dataframe=case["df"],
                       output_column_map=case["colmap"], use_cache=case["use_cache"])
             init = {k: (list(v) if isinstance(v, list) else v) for k, v in case["init"].items()}
-            if case["entry"] == "cls":
-                f = Body.for_node(**kw, **init)
-            else:
-                f = for_node(Body, **kw, **init)
-            f.body_node_executor = ctl
+            try:
+                if case["entry"] == "cls":
+                    f = Body.for_node(**kw, **init)
+                elif case["entry"] == "wf":
+                    # the loop node as a child of a workflow; its inputs are fed through data connections
+                    from pyiron_workflow import Workflow
+
+                    wf = Workflow("c16wf", autoload=None)
+                    f = for_node(Body, **kw)
+                    wf.add_child(f, label="loop")
+                    for k in spec["inputs"]:
+                        if k in init:
+                            srcs[k] = Workflow.create.standard.UserInput(init[k], label="src_" + k)
+                            wf.add_child(srcs[k])
+                            f.inputs[k] = srcs[k]
+                else:
+                    f = for_node(Body, **kw, **init)
+            except ValueError as e:
+                # refused when the class is made (`For.__init_subclass__`)
+                kind = {"UnmappedConflictError": "Unmapped", "MapsToNonexistentOutputError": "Nonexistent",
+                        "ColumnNameConflictError": "Columns"}.get(type(e).__name__, f"Other({type(e).__name__})")
+                obs.append("mk err " + kind)
+                stats["mk:" + kind] = 1
+                return {"obs": obs, "runs": [], "stats": stats, "policy": policy, "created": False,
+                        "mk_err": f"{type(e).__name__}: {e}"[:300]}
+            f.body_node_executor = body_exec
             in_labels = list(f.inputs.labels)
             obs.append("ch " + " ".join(_child_name(f, c, in_labels) for c in f))
         else:
             obs.append("ch " + " ".join(spec["inputs"]))
         for run in case["runs"]:
             idle.sched = list(run.get("sched", []))
-            if f is not None and ctl is not None:
-                f.body_node_executor = ctl if run.get("exec", True) else None
+            if f is not None and body_exec is not None:
+                f.body_node_executor = body_exec if run.get("exec", True) else None
             calls0 = len(nodes_c16.CALLS)
             sets = {k: (list(v) if isinstance(v, list) else v) for k, v in run["set"].items()}
             res, ret, err_text = "ok", None, ""
@@ -567,9 +693,19 @@ def _run_for(case):
                     looped = case["iter"] if case["entry"] == "iter" else case["zip"]
                     node = Body(**{k: v for k, v in case["init"].items() if k not in looped})
                     meth = node.iter if case["entry"] == "iter" else node.zip
-                    df = meth(body_node_executor=ctl, output_column_map=case["colmap"],
+                    df = meth(body_node_executor=body_exec, output_column_map=case["colmap"],
                               **{k: list(case["init"][k]) for k in looped})
                     ret = {"df": df}
+                elif wf is not None:
+                    from pyiron_workflow import Workflow
+
+                    for k, v in sets.items():
+                        if k not in srcs:
+                            srcs[k] = Workflow.create.standard.UserInput(label="src_" + k)
+                            wf.add_child(srcs[k])
+                            f.inputs[k] = srcs[k]
+                        srcs[k].inputs.user_input = v
+                    wf.run()  # outputs are read off the loop node below
                 else:
                     if run["how"] == "call":
                         ret = f(**sets)
@@ -585,6 +721,8 @@ def _run_for(case):
                 err_text = f"{type(e).__name__}: {e}"[:300]
                 if f is not None:
                     f.failed = False
+                if wf is not None:
+                    wf.failed = False
             leftover = 0
             if ctl is not None and ctl.jobs:
                 leftover = len(ctl.jobs)
@@ -624,10 +762,12 @@ def _run_for(case):
                     "rows:" + str(min(len(struct["table"]), 9)), 0) + 1
     finally:
         composite.sleep = old_sleep
+        if pool is not None:
+            pool.shutdown(wait=True, cancel_futures=True)
     if ctl is not None:
         stats["max_outstanding:" + str(min(ctl.max_outstanding, 9))] = 1
     stats[f"policy:gate={policy['gate']},clear={policy['clear']},abort={policy['abort']}"] = 1
-    return {"obs": obs, "runs": runs_out, "stats": stats, "policy": policy}
+    return {"obs": obs, "runs": runs_out, "stats": stats, "policy": policy, "created": True}
 
 
 def _run_maps(case):
@@ -698,11 +838,15 @@ def model_input(case, impl=None):
     lines.append("zip " + " ".join(case["zip"]))
     lines.append("form " + ("df" if case["df"] else "lists"))
     lines.append("cache " + ("on" if case["use_cache"] else "off"))
-    policy = (impl or {}).get("policy") or {"gate": False, "clear": False, "abort": True}
+    policy = (impl or {}).get("policy") or {"gate": False, "clear": False, "abort": True, "checkcols": False}
     lines.append("gatecache " + ("on" if policy["gate"] else "off"))
     lines.append("clearonfail " + ("on" if policy["clear"] else "off"))
     lines.append("startabort " + ("on" if policy["abort"] else "off"))
+    lines.append("mapkeys " + " ".join((case["colmap"] or {}).keys()))
+    lines.append("checkcols " + ("on" if policy.get("checkcols") else "off"))
     lines.append("begin")
+    if impl is not None and impl.get("created") is False:
+        return lines  # no node on the implementation side: the model has to refuse the class as well
     looped = set(case["iter"]) | set(case["zip"])
 
     def setline(k, v):
@@ -769,12 +913,31 @@ def oracle(case, r):
         return _oracle_maps(case, r)
     spec = BODIES[case["body"]]
     looped = case["iter"] + case["zip"]
+    if r.get("created") is False:
+        return fails  # the library refused to make the loop class: there is no loop node to talk about
+    colmap = case["colmap"] or {}
+    if any(x not in spec["outputs"] for x in colmap):
+        return fails  # (a map with unknown keys is documented to be refused; never reached)
+    cols = looped + [colmap.get(o, o) for o in spec["outputs"]]
+    collide = len(set(cols)) != len(cols) and len(set(looped)) == len(looped)
     vals = {x: v for x, v in spec["defaults"].items() if x not in looped}
     vals.update(case["init"])
     for k, (run, ro) in enumerate(zip(case["runs"], r["runs"])):
         vals.update(run["set"])
         if not looped:
             continue  # no loop at all: documented ValueError, nothing to demand
+        if collide:
+            # the map is not a renaming (two columns share a name), yet the loop class was made: whatever
+            # comes back cannot hold the looped values AND the body's results under their column names
+            if all(x in vals for x in spec["inputs"]) and not any(len(vals[x]) == 0 for x in looped):
+                outs = ro["outs"]
+                got = (f"columns {outs.get('cols')}" if outs.get("table") is not None
+                       else f"{ro['res']} {ro['err'][:80]}")
+                fails.append(_f("colliding-columns", case, k, f"column map {case['colmap']} over looped {looped} gives "
+                                f"the names {cols}; the class was created and the run gave: {got}",
+                                trigger="colmap"))
+                break
+            continue
         if any(x not in vals for x in spec["inputs"]):
             continue  # an input without data: no table is defined
         zero = any(len(vals[x]) == 0 for x in looped)
